@@ -5,6 +5,15 @@ package main
 var c01ids = []string{"no-panic", "string-no-marker", "gostring-no-marker", "json-no-marker", "terminates-within-budget"}
 var c10ids = []string{"parse-xor", "validates", "shape", "render-xor", "param-error-empty", "topostgres-xor", "toparam-error-empty", "toparam-xor", "rejected-by-all"}
 
+// withOnlyFree: as withOnly; the assertions of the other properties sharing the harness are not assumed.
+func withOnlyFree(rs []hrun, only []string) []hrun {
+	out := withOnly(rs, only, false)
+	for i := range out {
+		out[i].FreeOthers = true
+	}
+	return out
+}
+
 func withOnly(rs []hrun, only []string, panics bool) []hrun {
 	out := make([]hrun, len(rs))
 	for i, r := range rs {
@@ -165,7 +174,7 @@ func chainRuns() []hrun {
 		}
 	}
 	r = append(r, hrun{Harness: "ParseChain", Params: P("N", 40, "SHAPE", 8)}) // nested field groups
-	for _, sh := range []int{0, 1, 2, 3, 9} { // chains longer than the usual fixed limits (32, 64)
+	for _, sh := range []int{0, 1, 2, 3, 9} {                                  // chains longer than the usual fixed limits (32, 64)
 		r = append(r, hrun{Harness: "ParseChain", Params: P("N", 70, "SHAPE", sh)})
 	}
 	r = append(r, hrun{Harness: "TreeTotality", Params: P("D", 1, "FORMS", 1)})
@@ -239,8 +248,8 @@ var props = map[string]propCfg{
 		Outside:  "identifiers longer than 63 bytes; values longer than the hole widths; PostgreSQL settings other than standard_conforming_strings=on; the SQL fragment is parsed by a model of PostgreSQL's grammar (validated against pg_query natively)",
 	},
 	"C03": {
-		Quick:    withOnly(append(sqlRuns(false, 1), longChainRuns(false)...), c03ids, false),
-		Thorough: withOnly(append(sqlRuns(true, 1), longChainRuns(false)...), c03ids, false),
+		Quick:    withOnlyFree(append(sqlRuns(false, 1), longChainRuns(false)...), c03ids),
+		Thorough: withOnlyFree(append(sqlRuns(true, 1), longChainRuns(false)...), c03ids),
 		Bounds:   "every leaf form of the filterable fragment with symbolic constants (1-2 digit integers, 2-byte strings, 2-3 byte patterns) and a symbolic row value of the matching type (integers -3..103, strings of 0-3 printable bytes); boolean trees (AND OR NOT + -) of depth <= 2 over integer and string leaves with one symbolic row value per field",
 		Outside:  "NULLs; collations other than bytewise; floats other than the listed constants; regexp meaning; SIMILAR TO patterns containing regex metacharacters; ranges whose bounds have different types; field groups that contain a pattern; deeper trees",
 	},
